@@ -444,6 +444,17 @@ pub fn gen_dict_session(rng: &mut Rng, kind: u8, max_len: usize, nsteps: usize, 
         let k = rng.below(d.lex.len());
         d.lex[k].f.push_str(",\"l\nf\"");
     }
+    if rng.chance(1, 25) && !d.lex.is_empty() {
+        // a surface with 254 / 255 / 256 homographs (counted lists in the image: the one-byte boundary)
+        let base = d.lex[0].clone();
+        let n = 253 + rng.below(3);
+        for k in 0..n {
+            let mut w = base.clone();
+            w.f = format!("hg{k}");
+            w.c = (k % 11) as i32;
+            d.lex.push(w);
+        }
+    }
     let isp = d.space_cat() >= 0 && rng.chance(1, 3);
     let mgl = *rng.pick(&[0usize, 0, 2]);
     let mut steps = vec![];
@@ -511,9 +522,21 @@ pub fn record(a: &HashMap<String, String>) -> i32 {
     let mut rng = Rng::new(seed ^ 0xD1C7);
     let mut evs = vec![];
     let mut ins = vec![];
-    for _ in 0..n {
+    for i in 0..n {
         let mut r = rng.fork();
-        let ds = gen_dict_session(&mut r, kind, max_len, nsteps, reorder_mode);
+        let mut ds = gen_dict_session(&mut r, kind, max_len, nsteps, reorder_mode);
+        if i == 3 && !ds.d.lex.is_empty() {
+            // one session per run: a surface with EXACTLY 255 homographs, written and read back first
+            let base = ds.d.lex[0].clone();
+            let have = ds.d.lex.iter().filter(|w| w.s == base.s).count();
+            for k in have..255 {
+                let mut w = base.clone();
+                w.f = format!("hx{k}");
+                w.c = (k % 13) as i32;
+                ds.d.lex.push(w);
+            }
+            ds.steps.insert(0, DStep::WriteRead);
+        }
         run_dict_session(&ds, &mut evs);
         ins.push(ds.to_json());
     }
